@@ -207,6 +207,8 @@ def y_scripts(seed, count):
                 if size[o] > 0:
                     cands += ["PopBack", "PopFront"] * 2
                 cands += ["Resize"]
+                if rnd.random() < 0.15:
+                    cands += ["SelfCopyAssign", "SelfMoveAssign"]
             if r < 0.12:
                 cands = []
                 if stt["B"] == "none":
@@ -243,6 +245,8 @@ def y_scripts(seed, count):
             elif c in ("PopBack", "PopFront"):
                 steps.append("S op=%s o=%s" % (c, o))
                 size[o] -= 1
+            elif c in ("SelfCopyAssign", "SelfMoveAssign"):
+                steps.append("S op=%s o=%s" % (c, o))
             else:
                 n2 = rnd.choice([1, 2, 3, 4, 5, 6, 8, 9, 12, 16])
                 steps.append("S op=Resize o=%s n=%d" % (o, n2))
